@@ -332,6 +332,9 @@ func encryptsFreshMemory(p *Program, r *Reporter) {
 	if cs := p.mustFunc(r, pkgApp, "chunkSegment"); cs != nil {
 		appendSiblingsRule(p, r, cs, "app.chunk")
 	}
+	if w := p.mustFunc(r, pkgApp, "writeChunkedSegment"); w != nil {
+		encryptBeforeWriteRule(p, r, w)
+	}
 	r.Rule("E2-ENCPARAMS-RO", "key, IV and protection data of a representation are never written by request-serving code", 0)
 	reads, writes := 0, 0
 	seen := map[string]bool{}
